@@ -52,15 +52,28 @@ static Outcome<A> outcome_of(int rc, const typename A::Uri &u, const typename A:
 
 static GuardBuf &gb() { static GuardBuf g(8); return g; }
 
+// entry: 0 = uriParseSingleUriExMm, 1 = state-based uriParseUriEx (default manager only; no wrapper that cleans up behind it)
 template <class A>
-static Outcome<A> parse_range(const typename A::Ch *first, const typename A::Ch *afterLast, LedgerMM *mm, std::string *err) {
+static Outcome<A> parse_range(const typename A::Ch *first, const typename A::Ch *afterLast, LedgerMM *mm, std::string *err, int entry = 0) {
   using Ch = typename A::Ch;
   typename A::Uri u;
   memset(&u, 0xA5, sizeof u);
   const Ch *ep = nullptr;
-  int rc = A::ParseSingleUriExMm(&u, first, afterLast, &ep, mm ? &mm->mm : nullptr);
+  int rc;
+  long libcBefore = libc_ledger().outstanding;
+  if (entry == 0) rc = A::ParseSingleUriExMm(&u, first, afterLast, &ep, mm ? &mm->mm : nullptr);
+  else {
+    typename A::State st;
+    memset(&st, 0xA5, sizeof st);
+    st.uri = &u;
+    mm = nullptr;
+    rc = A::ParseUriEx(&st, first, afterLast);
+    ep = st.errorPos;
+    if (rc != st.errorCode) *err = "state-based parse: return value and state.errorCode differ";
+  }
   Outcome<A> o = outcome_of<A>(rc, u, first, afterLast, ep, err);
-  if (rc != 0 && mm && mm->outstanding() != 0) *err = "blocks outstanding right after a failing parse";
+  if (rc != 0 && mm && mm->outstanding() != 0) *err = std::string(entry ? "uriParseUriExMm" : "uriParseSingleUriExMm") + ": blocks outstanding right after a failing parse";
+  if (rc != 0 && !mm && libc_ledger().outstanding != libcBefore) *err = std::string(entry ? "uriParseUriEx" : "uriParseSingleUriEx") + ": default-manager blocks outstanding right after a failing parse";
   int times = 1 + (int)((afterLast - first) % 3);
   for (int i = 0; i < times; i++) {
     if (mm) A::FreeUriMembersMm(&u, &mm->mm); else A::FreeUriMembers(&u);
@@ -94,7 +107,10 @@ template <class A> static Verdict check_type(const std::string &text, unsigned t
     if (n) memcpy(whole.get(), T.data(), n * sizeof(Ch));
     for (size_t i = 0; i <= n; i++) {
       long before = libc_ledger().outstanding;
-      Outcome<A> o = parse_range<A>(whole.get(), whole.get() + i, (i & 1) ? &mm : nullptr, &err);
+      Outcome<A> o = parse_range<A>(whole.get(), whole.get() + i, (i & 1) ? &mm : nullptr, &err, (int)((i >> 1) & 1));
+      Outcome<A> o2 = parse_range<A>(whole.get(), whole.get() + i, (i & 1) ? nullptr : &mm, &err, (int)(((i >> 1) & 1) ^ 1));
+      VF_REQUIRE(o2 == o, "%s: split %zu: entry points disagree", A::name(), i);
+      stats().sub_evaluations++;
       stats().sub_evaluations++;
       VF_REQUIRE(err.empty(), "%s: split %zu: %s", A::name(), i, err.c_str());
       VF_REQUIRE(libc_ledger().outstanding == before, "%s: split %zu: default manager left %ld blocks", A::name(), i, libc_ledger().outstanding - before);
@@ -118,7 +134,7 @@ template <class A> static Verdict check_type(const std::string &text, unsigned t
       std::unique_ptr<Ch[]> big(new Ch[i + tl]);
       if (i) memcpy(big.get(), T.data(), i * sizeof(Ch));
       for (size_t j = 0; j < tl; j++) big[i + j] = (Ch)(unsigned char)tail[j];
-      Outcome<A> o = parse_range<A>(big.get(), big.get() + i, &mm, &err);
+      Outcome<A> o = parse_range<A>(big.get(), big.get() + i, (k & 1) ? nullptr : &mm, &err, k == 2 ? 1 : (int)(ci & 1));
       stats().sub_evaluations++;
       VF_REQUIRE(err.empty(), "%s: tail '%s' at %zu: %s", A::name(), tail, i, err.c_str());
       VF_REQUIRE(o == ref[i], "%s: range [0,%zu) of '%s' followed by '%s': outcome differs from the private copy (rc %d/%d, err %ld/%ld)", A::name(), i,
@@ -150,13 +166,35 @@ template <class A> static Verdict check_type(const std::string &text, unsigned t
     parse_range<A>(c.get(), c.get() + i, &mm, &err);
     uint64_t reqs = mm.requests;
     for (uint64_t k = 1; k <= reqs && k <= 40; k++) {
-      for (int mode = 0; mode < 2; mode++) {
+      for (int mode = 0; mode < 4; mode++) {  // fail once / from k on, through the single-call and the state-based entry
         mm.reset_counts(); mm.reset_plan();
-        if (mode == 0) mm.fail_at = k; else mm.fail_from = k;
+        if ((mode & 1) == 0) mm.fail_at = k; else mm.fail_from = k;
         typename A::Uri u;
         memset(&u, 0xA5, sizeof u);
         const Ch *ep = nullptr;
-        int rc = A::ParseSingleUriExMm(&u, c.get(), c.get() + i, &ep, &mm.mm);
+        int rc;
+        if (mode < 2) rc = A::ParseSingleUriExMm(&u, c.get(), c.get() + i, &ep, &mm.mm);
+        else {
+          // state-based entry: default manager, faults injected into the redirected libc allocator
+          mm.reset_plan();
+          LibcLedger &L = libc_ledger();
+          long before = L.outstanding;
+          L.req = 0; L.fail_at = (mode & 1) == 0 ? k : 0; L.fail_from = (mode & 1) ? k : 0;
+          typename A::State st;
+          memset(&st, 0xA5, sizeof st);
+          st.uri = &u;
+          rc = A::ParseUriEx(&st, c.get(), c.get() + i);
+          bool bitL = L.req >= k;
+          L.fail_at = L.fail_from = 0;
+          stats().sub_evaluations++;
+          if (bitL) {
+            VF_REQUIRE(rc == URI_ERROR_MALLOC && st.errorCode == URI_ERROR_MALLOC, "%s: uriParseUriEx: allocation %llu failed but rc=%d", A::name(), (unsigned long long)k, rc);
+            VF_REQUIRE(L.outstanding == before, "%s: uriParseUriEx: %ld default-manager blocks outstanding after running out of memory (k=%llu)", A::name(), L.outstanding - before, (unsigned long long)k);
+          } else VF_REQUIRE(rc == ref[i].rc, "%s: uriParseUriEx: fault plan did not bite but rc=%d differs from %d", A::name(), rc, ref[i].rc);
+          for (int z = 0; z < 1 + (int)(k % 3); z++) A::FreeUriMembers(&u);
+          VF_REQUIRE(L.outstanding == before && L.foreign_free == 0, "%s: uriParseUriEx: default-manager ledger unbalanced after cleanup (k=%llu)", A::name(), (unsigned long long)k);
+          continue;
+        }
         stats().sub_evaluations++;
         bool bit = mm.failed > 0;
         mm.reset_plan();
